@@ -157,6 +157,11 @@ def wfBuildQ (x : Gff) : Bool :=
   && x.seq.all seqChar
   && x.features.all (wfFeatureQ x.locusName)
 
+/-- the record without the features whose written seqid (for an empty seqid: Locus.Name) begins with
+`#` — what survives a Build round trip (known finding C14-hash-seqid) -/
+def dropHash (x : Gff) : Gff :=
+  { x with features := x.features.filter fun f => !hasPrefix sHash1 (if f.name ≠ [] then f.name else x.locusName) }
+
 /-- some feature is written with a seqid (for an empty seqid: Locus.Name) that begins with `#` -/
 def hashSeqid (x : Gff) : Bool :=
   x.features.any fun f => hasPrefix sHash1 (if f.name ≠ [] then f.name else x.locusName)
